@@ -23,3 +23,10 @@ func VerifReadGitConfig(configs ...*git.ConfigurationSource) (vals map[string][]
 	sort.Strings(remotes)
 	return
 }
+
+// VerifGet exposes the lookup the consumers use (GitFetcher.Get on what
+// readGitConfig stored) to the verification harness.
+func VerifGet(key string, configs ...*git.ConfigurationSource) (string, bool) {
+	gf, _, _ := readGitConfig(configs...)
+	return gf.Get(key)
+}
